@@ -617,6 +617,9 @@ struct CompressedBlob {
     compression_ratio: f32,
     /// Entropy encoding algorithm used (if any)
     entropy_algorithm: EntropyAlgorithm,
+    /// Size of the dictionary-compressed data the entropy stage was given
+    /// (the length the entropy decoder has to reproduce; 0 for blobs stored uncompressed)
+    entropy_input_size: usize,
 }
 
 /// Main DictZipBlobStore implementation
@@ -1169,7 +1172,7 @@ impl BlobStore for DictZipBlobStore {
         // Step 1: Decode entropy encoding (if any)
         let dict_compressed = self.decode_entropy(
             &blob.compressed_data,
-            blob.original_size,
+            blob.entropy_input_size,
             blob.entropy_algorithm
         )?;
 
@@ -1213,6 +1216,7 @@ impl BlobStore for DictZipBlobStore {
                 .map_err(|e| ZiporaError::invalid_data(&format!("Compression failed: {}", e)))?;
 
             // Step 2: Apply entropy encoding (if configured)
+            let dict_compressed_size = dict_compressed.len();
             let (final_compressed, entropy_algorithm) = if self.config.entropy_algorithm != EntropyAlgorithm::None {
                 let entropy_encoded = self.apply_entropy_encoding(&dict_compressed)?;
 
@@ -1241,6 +1245,7 @@ impl BlobStore for DictZipBlobStore {
                     is_compressed: true,
                     compression_ratio,
                     entropy_algorithm,
+                    entropy_input_size: dict_compressed_size,
                 }
             } else {
                 // Store uncompressed if compression doesn't help
@@ -1250,6 +1255,7 @@ impl BlobStore for DictZipBlobStore {
                     is_compressed: false,
                     compression_ratio: 1.0,
                     entropy_algorithm: EntropyAlgorithm::None,
+                    entropy_input_size: 0,
                 }
             }
         } else {
@@ -1260,6 +1266,7 @@ impl BlobStore for DictZipBlobStore {
                 is_compressed: false,
                 compression_ratio: 1.0,
                 entropy_algorithm: EntropyAlgorithm::None,
+                entropy_input_size: 0,
             }
         };
 
